@@ -50,7 +50,11 @@ Proof.
         destruct (chain_case o (EBin o e1 e2)); rewrite ?PB, ?CB; reflexivity.
     + destruct (q <=? binprec o); [exact PB|]. rewrite map_snd_sparen.
       destruct (chain_case o (EBin o e1 e2)); rewrite ?PB, ?CB; reflexivity.
-  - simpl. rewrite map_snd_set_first, IHe. reflexivity.
+  - assert (B : forall s, map snd ((Glue, TOp o) :: set_first s (sp2 (MOperand unary_prec) e))
+                      = TOp o :: pr2 (MOperand unary_prec) e).
+    { intros s. simpl. rewrite map_snd_set_first, IHe. reflexivity. }
+    cbn [sp2 pr2]. destruct m as [|o'|q]; try apply B.
+    destruct (unary_prec <? q); [rewrite map_snd_sparen|]; rewrite B; reflexivity.
   - simpl. rewrite map_app, IHe. reflexivity.
   - simpl. rewrite map_app. simpl. rewrite map_app, map_snd_set_first, IHe1, IHe2. reflexivity.
   - simpl. rewrite map_app. simpl. rewrite map_app, IHe. simpl. f_equal. f_equal. f_equal.
@@ -130,12 +134,13 @@ Theorem v1_glues_lss_sub_refuted :
   scan (render (resolve (fun _ => true) 0 (sp2 MDisp e))) = Some (print2 e).
 Proof. vm_compute. repeat split; try reflexivity; repeat constructor. Qed.
 
-Theorem v2_glues_int_period_refuted :
+(* since the fix of internal/pretty (intLitMergesWithPeriod) V2 separates the pair too *)
+Theorem v2_separates_int_period :
   let e := ESel one (TIdent [97%N]) in
   valid e /\ Forall tok_wf (print2 e) /\
-  hazards (sp2 MDisp e) = [(TInt [49%N], TP PERIOD)] /\
-  scan (render (resolve (fun _ => true) 0 (sp2 MDisp e))) = Some [TFloat [49%N; 46%N]; TIdent [97%N]] /\
-  parse [TFloat [49%N; 46%N]; TIdent [97%N]] = None /\
+  hazards (sp2 MDisp e) = [] /\ sep_ok (sp2 MDisp e) = true /\
+  scan (render (resolve (fun _ => false) 0 (sp2 MDisp e))) = Some (print2 e) /\
+  parse (print2 e) = Some e /\
   hazards (sp1 e 0) = [] /\
   scan (render (resolve (fun _ => true) 0 (sp1 e 0))) = Some (print1 e).
 Proof. vm_compute. repeat split; try reflexivity; repeat constructor. Qed.
